@@ -198,6 +198,7 @@ func (t *ImmutableTree) Get(key []byte) ([]byte, error) {
 			_, result, err := t.root.get(t, key)
 			return result, err
 		}
+		verifYield("get:fastnode")
 
 		if fastNode == nil {
 			// If the tree is of the latest version and fast node is not in the tree
